@@ -228,8 +228,40 @@ pub enum Op {
     Audit,
 }
 
+fn shorten(s: String) -> String {
+    // long literals (multi-page rows) are abbreviated in scripts; the replay artefact keeps the structured op
+    if s.len() <= 200 {
+        return s;
+    }
+    let mut out = String::new();
+    let mut run = 0usize;
+    let mut last = '\0';
+    for c in s.chars() {
+        if c == last {
+            run += 1;
+            if run == 12 {
+                out.push('…');
+            }
+            if run >= 12 {
+                continue;
+            }
+        } else {
+            if run >= 12 {
+                out.push_str(&format!("(x{})", run + 1));
+            }
+            run = 0;
+            last = c;
+        }
+        out.push(c);
+    }
+    out
+}
+
 impl Op {
     pub fn show(&self) -> String {
+        shorten(self.show_full())
+    }
+    pub fn show_full(&self) -> String {
         match self {
             Op::Auto(s) => format!("db: {}", s.sql()),
             Op::Begin(n) => format!("s{n}: begin"),
